@@ -1,6 +1,8 @@
 (* C17 - mtbl_crc32c is the standard CRC-32C on every buffer, both implementations *)
 From Coq Require Import NArith List Lia.
 From Mtbl Require Import gen.CrcTables model.Bytes model.Crc proofs.CrcProofs.
+(* source ties: the statements of the C functions the model follows (gen/Ties.v is regenerated from /repo on every run) *)
+From Mtbl Require props.Ties_C17.
 Local Open Scope N_scope.
 
 (* T17a: the table-driven implementation (byte-wise head up to the 4-byte boundary,
